@@ -349,10 +349,55 @@ func TestC11(t *testing.T) {
 					return
 				}
 			}
+			// a third of the histories: the chain is reorged from exactly the block that carried the
+			// last effective rollup verification (or a random one) and continues differently; the
+			// trees must mirror the contracts of the final chain
+			reorged := false
+			if i%3 == 0 && len(all) > 3 {
+				first := all[len(all)/2+g.Intn(len(all)-len(all)/2)].Num
+				for k := len(all) - 1; k >= 0; k-- {
+					hit := false
+					for _, e := range all[k].Events {
+						if vb := e.(l1infotreesync.Event).VerifyBatches; vb != nil && vb.ExitRoot != (common.Hash{}) {
+							hit = true
+						}
+					}
+					if hit && g.Intn(3) != 0 {
+						first = all[k].Num
+						break
+					}
+				}
+				if err := st.Reorg(first); err != nil {
+					r.Violation("C11:proc:reorg-error", caseID, err.Error(), scen)
+					return
+				}
+				var surv []aggsync.Block
+				for _, b := range all {
+					if b.Num < first {
+						surv = append(surv, b)
+					}
+				}
+				gen.ResetTo(surv, first, 2)
+				all = surv
+				for k := 0; k < 3+g.Intn(12); k++ {
+					b := gen.Next()
+					all = append(all, b)
+					if err := st.Process(b); err != nil {
+						scen["blocks"] = blockSummary("l1info", all)
+						r.Violation("C11:proc:process-error", caseID, fmt.Sprintf("after a reorg from %d: ProcessBlock(%s): %v", first, blockSummary("l1info", []aggsync.Block{b})[0], err), scen)
+						return
+					}
+				}
+				reorged = true
+				scen["reorged_from"] = first
+			}
 			if sig, what := c11CheckStoreVsRef(st.Facade.(*l1infotreesync.L1InfoTreeSync), gen.Ref); sig != "" {
 				scen["blocks"] = blockSummary("l1info", all)
 				r.Violation("C11:proc:"+sig, caseID, what, scen)
 				return
+			}
+			if reorged {
+				r.Cover("proc/after-reorg")
 			}
 			big := false
 			for id := range gen.Ref.Current {
